@@ -6,12 +6,14 @@ CONSTANTS
   Lims <- BigLims
   Uris <- SmallUris
   Vals <- SmallVals
+  Suspendable <- OneSuspendable
   Updatable <- AllUpdatable
 INIT MCInit
 NEXT MCNext
 VIEW View
 INVARIANT TypeOK
 INVARIANT WithinScope
+INVARIANT KeysExclusive
 PROPERTY RefusedUnchanged
 PROPERTY EffectsWithinSender
 PROPERTY ReplySignedByCurrentServerKey
